@@ -12,7 +12,7 @@ def run(ctx, replay=None):
     else:
         cfg = "MC_codec_q.cfg" if ctx.tier == "quick" else "MC_codec_t.cfg"
         res = pipeline.model_check(ctx, "MC_codec", cfg, workers=4)
-        cases = pipeline.parse_cases(res.out)
+        cases = pipeline.parse_cases(res)
         ctx.cov["exhaustive"] = True
         if not cases:
             raise vlib.Inconclusive("TLC exported no cases")
